@@ -13,7 +13,8 @@ import shutil
 from vlib import core
 
 LEVEL = "exploration"
-PRESETS = {"exact": 0, "default": 6}
+PRESETS = {"exact": 0, "default": 6, "default+delta0": 0, "default+delta4": 4}
+PRESET_OPTS = {"default+delta0": ["--matching_strategy", "default", "--delta", "0"], "default+delta4": ["--matching_strategy", "default", "--delta", "4"]}
 
 
 ISO_MENU = {
@@ -95,6 +96,9 @@ def make_world(variant, two_clusters):
     add([S(0), S(1, de=100), S(2)], next(grp))
     add([S(0), S(1, ds=60, de=-60), S(2)], next(grp))
     if not two_clusters:
+        # splice sites 3 and 5 bp off the annotated ones: matched or not depending on the requested delta
+        add([S(0), S(1, de=3), S(2), S(3)], next(grp))
+        add([S(1), S(2, ds=-5), S(3), S(4)], next(grp))
         add([S(0, de=-80), S(3, ds=-90), S(4)], next(grp))
         add([S(1), S(2, ds=40), S(3)], next(grp))
         add([[1351, 1600]], next(grp), strand="-")
@@ -220,7 +224,8 @@ def case(args):
     shutil.rmtree(d, ignore_errors=True)
     paths = syn.materialise(w, d)
     out = os.path.join(d, "out")
-    extra = ["--count_exons", "--no_model_construction", "--matching_strategy", preset] + (["--read_group", "read_id:_"] if grouped else [])
+    extra = ["--count_exons", "--no_model_construction"] + PRESET_OPTS.get(preset, ["--matching_strategy", preset]) + \
+        (["--read_group", "read_id:_"] if grouped else [])
     rc = run.run_isoquant(run.base_argv(paths, out, extra=extra), paths["home"], os.path.join(d, "o.txt"))
     errs = []
     nfeat = 0
